@@ -109,11 +109,19 @@ func TestProp(t *testing.T) {
 			}
 		}
 		curFinish = finish
-		if def.Bubble {
-			runBubble(t, rec, func(t *testing.T) { def.Run(t, rng, rec, tier, i) })
-		} else {
-			def.Run(t, rng, rec, tier, i)
-			finish()
+		// Each case is its own subtest: when the race detector flags something during a case only
+		// that subtest is failed by the testing package and the remaining cases still run (race
+		// reports are collected from the GORACE log by the driver).
+		ok := t.Run(fmt.Sprintf("case%d", i), func(t *testing.T) {
+			if def.Bubble {
+				runBubble(t, rec, func(t *testing.T) { def.Run(t, rng, rec, tier, i) })
+			} else {
+				def.Run(t, rng, rec, tier, i)
+				finish()
+			}
+		})
+		if !ok {
+			rec.Ev("subtest-failed-by-testing-package")
 		}
 		wantSample := i < 3 || os.Getenv("VERIF_CASE") != ""
 		emit(out, "RESULT "+rec.Result(i, seed, wantSample).JSON())
